@@ -33,6 +33,7 @@ pub fn replay(ctx: &Ctx, doc: &Value) -> Option<Report> {
         "C07" => c07::replay(ctx, w),
         "C09" => c09::replay(ctx, w),
         "C18" => c18::replay(ctx, w),
+        "C19" => c19::replay(ctx, w),
         "C14" | "C15" | "C16" => staking::replay(ctx, w),
         "C01" | "C02" | "C03" | "C04" | "C05" | "C08" | "C10" | "C11" | "C12" | "C13" => chain::replay(ctx, w),
         _ => return None,
